@@ -11,11 +11,11 @@ import (
 
 // profT bounds the exploration of one configuration.
 type profT struct {
-	Budget     int  `json:"deviation_budget"`   // non-default state-changing events per trace
+	Budget     int  `json:"deviation_budget"`               // non-default state-changing events per trace
 	OrderCost  int  `json:"order_deviation_cost,omitempty"` // cost of a delivery-order/batching deviation (default 1); flush/restart/crash/header splits cost 1
-	Tail       int  `json:"exhaustive_tail"`    // all delivery orders once at most this many trie nodes are missing
-	Sub        bool `json:"subtree_batches"`    // multi-node batches: subtree answers, all-unknown batches, good+bad batch
-	SubTrunc   bool `json:"truncated_subtrees"` // subtree answers cut after 3 nodes
+	Tail       int  `json:"exhaustive_tail"`                // all delivery orders once at most this many trie nodes are missing
+	Sub        bool `json:"subtree_batches"`                // multi-node batches: subtree answers, all-unknown batches, good+bad batch
+	SubTrunc   bool `json:"truncated_subtrees"`             // subtree answers cut after 3 nodes
 	RestartTip bool `json:"restart_with_new_height"`
 	AllBytes   bool `json:"all_byte_positions"`
 	ItemBatch  int  `json:"default_item_batch"`
@@ -23,11 +23,11 @@ type profT struct {
 }
 
 type statsT struct {
-	states, transitions, jobs, completed, merged, probes, rejected, restarts, crashes, jumps, forks, violations, outdated vk.Counter
-	stages, orders, crashStates                                                                                      *vk.Set
-	mu                                                                                                               sync.Mutex
-	finals                                                                                                           map[string]map[string]int
-	run                                                                                                              *vk.Run
+	states, transitions, jobs, completed, merged, probes, rejected, restarts, crashes, jumps, forks, violations, outdated, leaked vk.Counter
+	stages, orders, crashStates                                                                                                   *vk.Set
+	mu                                                                                                                            sync.Mutex
+	finals                                                                                                                        map[string]map[string]int
+	run                                                                                                                           *vk.Run
 }
 
 func newStats(r *vk.Run) *statsT {
